@@ -59,12 +59,12 @@ rows = []
 for m in sorted(glob.glob(os.path.join(V, 'seeded/*/meta.json'))):
     d = json.load(open(m))
     rows.append('| %s | %s | %s | %s | %s |' % (os.path.basename(os.path.dirname(m)), d.get('property', ''), d.get('summary', '').replace('|', '/'),
-                                           d.get('needs', '').replace('|', '/'), d.get('detected_by', d.get('detection', ''))))
+                                           d.get('needs', '').replace('|', '/'), d.get('detected_by', d.get('detection', '')) + (' (first evaluation: NOT DETECTED; ' + d.get('strengthened', 'checks strengthened afterwards') + ')' if 'NOT DETECTED' in d.get('history', []) and d.get('detected_by') != 'NOT DETECTED' else '')))
 sec9 = ''
 if rows:
     sec9 = ('Changes written by independent sub-agents that saw only the property text and a scratch worktree;\n'
             'each compiles, passes the 594-test suite and comes with a demonstration that fails with it and passes without.\n'
-            'Each was applied to /repo, the checks were run, and it was reverted.\n\n'
+            'Each was confirmed in a scratch worktree of /repo; the registered checks (same engine, harnesses and plan) were then run against that worktree with the change applied (VERIF_REPO), quick tier first, thorough if quick passed.\n\n'
             '| seed | property | change | needs | detected by |\n|---|---|---|---|---|\n' + '\n'.join(rows) + '\n')
 else:
     sec9 = '(no seeded change recorded yet)\n'
